@@ -918,6 +918,40 @@ Fixpoint mbl (n : nat) (p : list stmt) : list stmt :=
         end) p
   end.
 Definition move_before_loop_model (p : list stmt) : list stmt := mbl (fuel_of p) p.
+(* ---- guard of the partial theorem: every loop out of which something is moved certainly runs its body at
+        least once, the moved statement assigns a constant, and its variable is not assigned elsewhere in
+        the body *)
+Definition runs_once (h : head) : bool :=
+  match h with
+  | HWhile t => match tval t with Some true => true | _ => false end
+  | HFor (IKnown (S _)) => true
+  | HFor _ => false
+  end.
+Fixpoint hoist_all_safe (n : nat) (h : head) (body : list stmt) : bool :=
+  match n with
+  | O => true
+  | S n' =>
+      match hoist_one h [] body with
+      | Some (s, body') =>
+          runs_once h
+          && match s with SAssign x (RVal _) => negb (writes_in x body') | _ => false end
+          && hoist_all_safe n' h body'
+      | None => true
+      end
+  end.
+Fixpoint mbl_safe (n : nat) (p : list stmt) : bool :=
+  match n with
+  | O => true
+  | S n' =>
+      forallb (fun s =>
+        match s with
+        | SIf t b e => mbl_safe n' b && mbl_safe n' e
+        | SLoop h b e =>
+            if forallb is_simple_stmt b then hoist_all_safe (length b) h b && mbl_safe n' e else true
+        | _ => true
+        end) p
+  end.
+
 
 (* ---------------------------------------------------------------------------------------------- *)
 (* correspondence plumbing: (rule number, input program, expected output of the real rule) *)
